@@ -45,8 +45,8 @@ ASSUMPTIONS = [
     "stopping inequalities are the ones documented in the two _solve methods, recomputed from convergence_history and the options",
 ]
 FLOORS = {
-    "quick": {"mass_balance": 1500, "distance_is_cost_of_flux": 1500, "status_honest": 400, "fault:not_converged": 2000, "fault:last_valid_iterate": 2000, "fault:depth:backend": 1000, "fault:depth:after_update": 1000, "fault:depth:backend_returns_nan": 1000, "second_pair_on_same_object": 150, "lab_scale_cg_relative_tolerance_only": 10, "masses_as_uint8_images": 100, "monitoring_active": 1500},
-    "thorough": {"mass_balance": 12000, "distance_is_cost_of_flux": 12000, "status_honest": 3800, "fault:not_converged": 16000, "fault:last_valid_iterate": 16000, "fault:depth:backend": 8000, "fault:depth:after_update": 8000, "fault:depth:backend_returns_nan": 8000, "second_pair_on_same_object": 1500, "lab_scale_cg_relative_tolerance_only": 100, "masses_as_uint8_images": 1000, "monitoring_active": 12000},
+    "quick": {"mass_balance": 1500, "distance_is_cost_of_flux": 1500, "status_honest": 400, "fault:not_converged": 2000, "fault:last_valid_iterate": 2000, "fault:depth:backend": 1000, "fault:depth:after_update": 1000, "fault:depth:backend_returns_nan": 1000, "second_pair_on_same_object": 150, "lab_scale_cg_relative_tolerance_only": 10, "masses_as_uint8_images": 60, "monitoring_active": 1500},
+    "thorough": {"mass_balance": 12000, "distance_is_cost_of_flux": 12000, "status_honest": 3800, "fault:not_converged": 16000, "fault:last_valid_iterate": 16000, "fault:depth:backend": 8000, "fault:depth:after_update": 8000, "fault:depth:backend_returns_nan": 8000, "second_pair_on_same_object": 1500, "lab_scale_cg_relative_tolerance_only": 100, "masses_as_uint8_images": 600, "monitoring_active": 12000},
 }
 SHARD_TIMEOUT = {"quick": 1500, "thorough": 6000}
 
@@ -158,7 +158,7 @@ def run_shard(spec, R):
             opt = wass.make_options(darsia, c["method"], c["l1"], c["mob"], formulation, backend, c["aa"], num_iter, extra)
             grid = darsia.generate_grid(m1)
             w1 = wass.solver_class(darsia, c["method"])(grid, weight_img, opt)
-            return w1, wass.Capture(w1, fail_at=fail_at, deep=deep), opt
+            return w1, wass.Capture(w1, fail_at=fail_at, deep=deep, fault_kind=c["id"] + (fail_at or 0)), opt
 
         def judge_common(w1, cap, out, label):
             """Clauses that must hold for clean and faulted runs alike; returns flux."""
@@ -294,6 +294,13 @@ def run_shard(spec, R):
                         R.check(abs(float(d2) - ind2) <= 1e-10 * max(abs(ind2), 1e-300) + 1e-300, "distance_is_cost_of_flux",
                                 lambda: {**desc, "run": "second pair on the same object", "distance": float(d2), "independent_cost": ind2}, key=k2, group=grp + "/second_call")
                         R.count("second_pair_on_same_object")
+                        # the second run's status and history are its own
+                        n2 = len(_i2["convergence_history"]["distance"])
+                        R.check(n2 <= num_iter and _i2["number_iterations"] + 1 >= n2, "iteration_count_consistent",
+                                {**desc, "run": "second pair on the same object", "number_iterations": _i2["number_iterations"], "recorded": n2, "num_iter": num_iter}, key=k2)
+                        met2 = stopping_criteria_met(c["method"], _i2, opt)
+                        R.check((not bool(_i2["converged"])) or met2, "status_honest",
+                                lambda: {**desc, "run": "second pair on the same object", "converged": bool(_i2["converged"]), "criteria_met": met2, "iterations_recorded": n2}, key=k2, group=grp + "/second_call")
         # return_status path agrees
         if c["id"] % 7 == 0:
             opt2 = dict(opt)
